@@ -199,6 +199,10 @@ func c14Specs(e *Env, r *rand.Rand) []string {
 		r.Read(m[:])
 		add(fmt.Sprintf("%s/%s", randV4(r), netip.AddrFrom4(m)))
 	}
+	for _, m := range []string{"0.0.0.255", "0.0.255.255", "0.255.255.255", "0.0.255.0", "0.255.0.0", "0.128.0.0", "0.0.0.1", "0.0.0.128", "0.0.1.0", "0.255.255.0", "0.0.0.254"} {
+		add("192.168.1.0/" + m)
+		add(fmt.Sprintf("%s/%s", randV4(r), m))
+	}
 	// out-of-range prefixes and junk
 	for _, bad := range []string{"33", "129", "999", "-1", "", "x", "24x", "0x18", "1e1", "255.255.255", "255.255.255.256", "2001:db8::"} {
 		add("192.0.2.0/" + bad)
